@@ -35,7 +35,31 @@ import (
 var (
 	clientHandler     *gettyClientHandler
 	onceClientHandler = &sync.Once{}
+
+	// sessionOpenRequests supplies the requests that, besides the RegisterTMRequest,
+	// identify this client on every new session: the resource manager puts the
+	// RegisterRMRequests of its resources here. Guarded by sessionOpenLock.
+	sessionOpenRequests func() []interface{}
+	sessionOpenLock     sync.RWMutex
 )
+
+// SetSessionOpenRequests sets the supplier of the requests sent on every newly
+// opened session after the RegisterTMRequest
+func SetSessionOpenRequests(supplier func() []interface{}) {
+	sessionOpenLock.Lock()
+	defer sessionOpenLock.Unlock()
+	sessionOpenRequests = supplier
+}
+
+func getSessionOpenRequests() []interface{} {
+	sessionOpenLock.RLock()
+	supplier := sessionOpenRequests
+	sessionOpenLock.RUnlock()
+	if supplier == nil {
+		return nil
+	}
+	return supplier()
+}
 
 type gettyClientHandler struct {
 	idGenerator  *atomic.Uint32
@@ -69,6 +93,13 @@ func (g *gettyClientHandler) OnOpen(session getty.Session) error {
 			log.Errorf("OnOpen error: {%#v}", err.Error())
 			sessionManager.releaseSession(session)
 			return
+		}
+		// a new connection knows nothing of what was announced on the lost one:
+		// register the resources again, on this very session
+		for _, request := range getSessionOpenRequests() {
+			if err := g.sendRequestOn(session, request); err != nil {
+				log.Errorf("OnOpen error: {%#v}", err.Error())
+			}
 		}
 	}()
 
@@ -142,4 +173,18 @@ func (g *gettyClientHandler) RegisterProcessor(msgType message.MessageType, proc
 	if nil != processor {
 		g.processorMap[msgType] = processor
 	}
+}
+
+// sendRequestOn sends a one-way request on the given session instead of a
+// load-balanced one; nobody waits for the answer
+func (g *gettyClientHandler) sendRequestOn(session getty.Session, msg interface{}) error {
+	client := GetGettyRemotingClient()
+	rpcMessage := message.RpcMessage{
+		ID:         int32(client.idGenerator.Inc()),
+		Type:       message.GettyRequestTypeRequestOneway,
+		Codec:      byte(codec.CodecTypeSeata),
+		Compressor: 0,
+		Body:       msg,
+	}
+	return client.gettyRemoting.SendAsync(rpcMessage, session, nil)
 }
